@@ -180,7 +180,7 @@ class NeuralUCB(RLAlgorithm):
         self.numel = sum(
             w.numel() for w in self.exp_layer.parameters() if w.requires_grad
         )
-        self.sigma_inv = self.lamb * torch.eye(self.numel).to(self.device)
+        self.sigma_inv = torch.eye(self.numel).to(self.device) / self.lamb
         self.theta_0 = torch.cat(
             [w.flatten() for w in self.exp_layer.parameters() if w.requires_grad]
         ).detach()
